@@ -494,6 +494,16 @@ func c03One(t *testing.T, run *c03Run) {
 			tk = rs[rng.Intn(len(rs))]
 		case "seq":
 			tk = rs[0]
+		case "stick":
+			// the task that moved last keeps running while it can
+			tk = rs[0]
+			if len(sched) > 0 {
+				for _, x := range rs {
+					if x.Name == sched[len(sched)-1] {
+						tk = x
+					}
+				}
+			}
 		default:
 			tk = rs[rr%len(rs)]
 			rr++
